@@ -86,7 +86,7 @@ def model_join(inputs, on, defaults, kt):
     for r in rows:
         for n, v in scalars.items():
             r[n] = v
-    rows.sort(key=lambda r: tuple(r[c] for c in sorted(on) if c in r))
+    rows.sort(key=lambda r: tuple(r[c] for c in on if c in r))
     return rows
 
 
@@ -110,7 +110,7 @@ def run_alldef(case, ctx):
             else:
                 row[n] = live[n]
         exp.append(row)
-    exp.sort(key=lambda r: tuple(r[c] for c in sorted(on)))
+    exp.sort(key=lambda r: tuple(r[c] for c in on))
     dflt = dict(case['defaults'])
     st, res = ctx.call(join, dict(live), list(on), None, dflt)
     ok = st == 'ok' and type(res) is dictable and len(res) == len(exp) and (not exp or (sorted(res.keys()) == sorted(list(on) + names) and all(same(dict(a), b) for a, b in zip(res, exp))))
@@ -123,8 +123,8 @@ def run_alldef(case, ctx):
     p = perdictable(g['f'], on=list(on), defaults=dict(case['defaults']))
     st, res = ctx.call(p, **live)
     if exp:
-        expv = [(tuple(r[c] for c in sorted(on)), ('f',) + tuple(r[n] for n in names)) for r in exp]
-        ok = st == 'ok' and type(res) is dictable and len(res) == len(expv) and all(same((tuple(r[c] for c in sorted(on)), r['data']), e) for r, e in zip(res, expv))
+        expv = [(tuple(r[c] for c in on), ('f',) + tuple(r[n] for n in names)) for r in exp]
+        ok = st == 'ok' and type(res) is dictable and len(res) == len(expv) and all(same((tuple(r[c] for c in on), r['data']), e) for r, e in zip(res, expv))
         ctx.check('perdictable_rows_model', ok, lambda: 'perdictable(f, on=%r, defaults=%r)(%r) = %s %r\nmodel %r' % (on, case['defaults'], case['inputs'], st, [dict(r) for r in res] if st == 'ok' and isinstance(res, dict) else res, expv))
         ctx.check('calls_exactly_once_per_recomputed_row', sorted(map(repr, log)) == sorted(repr(e[1][1:]) for e in expv), lambda: 'f evaluated with %r, expected once per row of %r' % (log, expv))
     if len(tabs) >= 3:
@@ -193,7 +193,7 @@ def run_case(case, ctx):
         names = list(inputs_t)
         okj = stj == 'ok' and type(jres) is dictable and len(jres) == len(mrows)
         if okj and len(mrows):
-            kc = [c for c in sorted(on) if c in mrows[0]]
+            kc = [c for c in on if c in mrows[0]]
             okj = sorted(jres.keys()) == sorted(kc + names)
             if okj:
                 got = [dict(r) for r in jres]
@@ -256,13 +256,13 @@ def run_case(case, ctx):
         else:
             val = ('f',) + args
             exp_calls.append(args)
-        exp_rows.append((tuple(kval(kt, r[c]) for c in sorted(on) if c in r), val))
+        exp_rows.append((tuple(kval(kt, r[c]) for c in on if c in r), val))
     if not mrows:
         ok0 = st == 'ok' and (res is None or (isinstance(res, dict) and len(res) == 0) or (prev is not None and res is call_kw.get('data')))
         ctx.check('perdictable_rows_model', ok0 and not calls, lambda: 'no common keys: perdictable returned %s %r with %d evaluations' % (st, res, len(calls)))
         ctx.cls('zero_common_keys')
         return
-    kc = [c for c in sorted(on) if c in mrows[0]]
+    kc = [c for c in on if c in mrows[0]]
     ok = st == 'ok' and type(res) is dictable and len(res) == len(exp_rows) and \
         (sorted(res.keys()) == sorted(kc + [COL]) if not case.get('include_inputs') else set(kc + [COL]) <= set(res.keys()))
     if ok:
@@ -291,7 +291,7 @@ def run_case(case, ctx):
 
 def gen_case(rng):
     kt = rng.choice(['str', 'int'])
-    on = rng.choice([['k1'], ['k1'], ['k1', 'k2']])
+    on = rng.choice([['k1'], ['k1'], ['k1', 'k2'], ['k2', 'k1']])         # 'sorted by key': by the key columns in the order they are given
     nparams = rng.randint(1, 4)
     params = ['a', 'b', 'c', 'd'][:nparams]
     nfdef = rng.choice([0, 0, 1]) if nparams > 1 else 0
